@@ -107,6 +107,41 @@ Definition is_delete_of (id : N) (o : nop) : bool :=
 (* known-finding class: the history deletes the node whose past is read *)
 Definition Known_C07 (id : N) (ops : list nop) : bool := existsb (is_delete_of id) ops.
 
+(* ---------- the monotone history (specification of "the state as of a version") ----------
+   An append-only list of the acknowledged events (node id, version at which it happened, state
+   after it; None = deleted), written next to the store: it never looks at the version chains.
+   [asof evs id v] = the state after the last event of [id] that happened at a version <= v. *)
+Definition event := (N * N * option props)%type.
+Definition ev_id (e : event) : N := fst (fst e).
+Definition ev_ver (e : event) : N := snd (fst e).
+Definition ev_state (e : event) : option props := snd e.
+
+Definition state_of (evs : list event) (id : N) : option props :=
+  match rfind (fun e => N.eqb (ev_id e) id) evs with Some e => ev_state e | None => None end.
+
+Definition asof (evs : list event) (id v : N) : option props :=
+  match rfind (fun e => N.eqb (ev_id e) id && N.leb (ev_ver e) v) evs with
+  | Some e => ev_state e
+  | None => None
+  end.
+
+Definition hstep (c : N) (evs : list event) (o : nop) (r : nres) : list event :=
+  match o, r with
+  | NCreate _ p, NId id => evs ++ [(id, c, Some p)]
+  | NSet id k v, NOk =>
+      match state_of evs id with Some st => evs ++ [(id, c, Some (pset k v st))] | None => evs end
+  | NRemove id k, NOk =>
+      match state_of evs id with Some st => evs ++ [(id, c, Some (prem k st))] | None => evs end
+  | NDelete id, NOk => evs ++ [(id, c, None)]
+  | _, _ => evs
+  end.
+
+Definition hgstep (sh : nstore * list event) (o : nop) : nstore * list event :=
+  let (s', r) := nstep (fst sh) o in (s', hstep (ncur (fst sh)) (snd sh) o r).
+Definition hrun_from (sh : nstore * list event) (ops : list nop) := fold_left hgstep ops sh.
+Definition hrun (ops : list nop) := hrun_from (ninit, []) ops.
+
+
 (* ---------- the relationship log as it was before the repair (kept for the record) ----------
    get_edge_at_version fell back to the properties current at read time when no log entry was
    <= v, and set_edge_property pushed post-images only.  The repaired functions are
